@@ -78,8 +78,59 @@ def showRes : HRes → String
 def snapshot (m : List (Nat × Status)) (n : Nat) : String :=
   if n = 0 then "-" else String.join ((List.range n).map fun i => showStatus (lookup m i))
 
+def dbErrOf : Char → Option DbErr
+  | 'n' | 'N' => some .notFound | 'c' | 'C' => some .closed | 'r' | 'R' => some .readOnly
+  | 's' | 'S' => some .snapshotReleased | 'i' | 'I' => some .iterReleased | 'k' | 'K' => some .corrupted
+  | '1' => some .generic | _ => none
+
 def handle (op : String) (args : List String) (impl : String) : Option Verdict :=
   match op, args with
+  | "propstatus", [kind, stored] => some <| Id.run do
+    let some st := (stored.toList.head?).bind statusOf | return bad
+    let some k := kind.toList.head? | return bad
+    let ro : Option (Except DbErr Status) := if k = '0' then some (.ok st) else (dbErrOf k).map .error
+    let some r := ro | return bad
+    let showO := fun (o : Option Status) => match o with | some v => showStatus v ++ ",nil" | none => "m,err"
+    let model := showO (propStatus r)
+    let ok := match impl.splitOn "," with
+      | [v, e] =>
+        match (v.toList.head?).bind statusOf with
+        | some v => (e == "nil" || e == "err") && decide (PPropStatus r (if e == "nil" then some v else none))
+        | none => false
+      | _ => false
+    return ⟨model, ok, s!"propstatus:{kind}"⟩
+  | "storestatus", [kind, st] => some <| Id.run do
+    let some v := (st.toList.head?).bind statusOf | return bad
+    let some k := kind.toList.head? | return bad
+    if k ≠ '0' && (dbErrOf k).isNone then return bad
+    -- `StorePropStatus` hands every database error on; nothing is stored then
+    let model := if k = '0' then "nil," ++ showStatus v else "err,m"
+    return ⟨model, impl == model, s!"storestatus:{kind}"⟩
+  | "lvldb", [mode, sts] => some <| Id.run do
+    let some sts := (chars sts).mapM statusOf | return bad
+    let n := sts.length
+    let ds : List Dep := (List.range n).map fun i => { dest := 2, res := 1, key := i, idx := i }
+    let m := ((List.range n).zip sts).reverse
+    let closed := mode == "closed"
+    let fl := if closed then List.replicate (4 * n + 4) true else []
+    let (out, s1) := filterDeposits 1 2 ⟨m, fl⟩ ds
+    let (sel, s2) := Sygma.C03.forExec ⟨s1.m, fl⟩ (List.range n)
+    let snap := fun (mm : List (Nat × Status)) => if closed then (if n = 0 then "-" else String.join (List.replicate n "x")) else snapshot mm n
+    let showSel := match sel with | some ps => "s:" ++ showNats ps | none => "e"
+    let model := showIdx out ++ "|" ++ snap s1.m ++ "|" ++ showSel ++ "|" ++ snap s2.m
+    let ok := match impl.splitOn "|" with
+      | [em, sn1, sl, sn2] =>
+        if closed then
+          -- the store cannot be read: nothing is re-emitted, nothing is selected, every status read is an error
+          em == "-" && (n == 0 || sl == "e") && sn1 == snap [] && sn2 == snap []
+        else
+          match depsOfIdx ds em, implMap ds sn1, (if sl.startsWith "s:" then natList (sl.drop 2).toString else none) with
+          | some o, some m1, some ps =>
+            decide (P17 m [] (isMatch 1 2) ds o m1) &&
+            decide (Sygma.C03.P03 false (Sygma.C03.executable m1 (List.range n)) (if ps.isEmpty then [] else [ps]))
+          | _, _, _ => false
+      | _ => false
+    return ⟨model, ok, s!"lvldb:{mode}:n={min n 4}"⟩
   | "filter", [deps, res, dest, sts, faults] => some <| Id.run do
     let some ds := parseDeps deps | return bad
     let some res := res.toNat? | return bad
@@ -169,9 +220,17 @@ def handle (op : String) (args : List String) (impl : String) : Option Verdict :
             let fs ← (chars sn).mapM statusOf
             if r == "hang" || fs.length ≠ n then none else some ((List.range n).zip fs)
           | _ => none
+        -- a delivery selects only records that were missing or failed in the previous snapshot
+        let selOk := fun (prev : List (Nat × Status)) (st : String) =>
+          match ((st.splitOn "~").headD "").splitOn ":" with
+          | ["s", ks] => match natList ks with
+            | some ks => ks.all fun k => lookup prev k == Status.missing || lookup prev k == Status.failed
+            | none => false
+          | _ => true
         match snaps with
         | some sn =>
           mx == "free" && steps.length == ops.length &&
+          ((([] : List (Nat × Status)) :: sn).zip steps).all (fun (prev, st) => selOk prev st) &&
           (!sequential || (List.range n).all fun k => finalAlong k ([] :: sn))
         | none => false
       | _ => false
